@@ -62,3 +62,143 @@ def real_engine_many(cases, workers=16):
     with ProcessPoolExecutor(max_workers=workers) as ex:
         outs = list(ex.map(_work, chunks))
     return [x for o in outs for x in o]
+
+
+# ---- histories: several calls on the same objects in one process ---------------------------
+# A history is a list of steps on ONE expression list object E:
+#   {"ast": tree, "how": "new" | "slice" | "tail" | "head" | "clear", "calls": [[op, word], ...]}
+# "new" binds E to a freshly built list; every other `how` EDITS the existing list in place
+# until it denotes `ast` (so the identity of E survives the change of its meaning).  With
+# sharing == "history" structurally equal operator sub-trees of all steps are one Python object.
+E_TIMEOUT = 9
+EDITS = ("slice", "tail", "head", "clear")
+
+
+class _Timeout(Exception):
+    pass
+
+
+def _alarm(signum, frame):
+    raise _Timeout()
+
+
+def edit_in_place(E, T, how):
+    """make the list object E equal (item by item, same objects) to the list T without rebinding it"""
+    if how == "slice":
+        E[:] = T
+    elif how == "clear":
+        E.clear()
+        E.extend(T)
+    elif how == "tail":      # keep the common prefix, pop the rest from the end, append
+        k = 0
+        while k < len(E) and k < len(T) and E[k] is T[k]:
+            k += 1
+        while len(E) > k:
+            E.pop()
+        for x in T[k:]:
+            E.append(x)
+    elif how == "head":      # keep the common suffix, pop from the front, insert at the front
+        k = 0
+        while k < len(E) and k < len(T) and E[len(E) - 1 - k] is T[len(T) - 1 - k]:
+            k += 1
+        while len(E) > k:
+            E.pop(0)
+        for x in reversed(T[:len(T) - k]):
+            E.insert(0, x)
+    else:
+        raise ValueError(how)
+    assert len(E) == len(T) and all(a is b for a, b in zip(E, T))
+
+
+def call_engine(op, expr, seq, alphabet="letters"):
+    """one call of the real engine on already built objects -> reply string (driver format)"""
+    from codelimit.common.gsm import matcher
+    from gen import rx
+    old = sys.getrecursionlimit()
+    try:
+        sys.setrecursionlimit(400)
+        if op == "match":
+            p = matcher.match(expr, seq)
+            return "ok none" if p is None else "ok %d" % p.end
+        if op == "sw":
+            p = matcher.starts_with(expr, seq)
+            return "ok none" if p is None else "ok %d" % p.end
+        if op == "nfa":
+            return "ok T" if matcher.nfa_match(expr, seq) else "ok F"
+        if op == "findall":
+            ps = matcher.find_all(expr, seq)
+            out = "ok %d" % len(ps)
+            for p in ps:
+                out += " %d %d %d" % (p.start, p.end, len(p.tokens))
+                out += "".join(" %d" % rx.unsym(alphabet, t) for t in p.tokens)
+            return out
+        raise ValueError(op)
+    except _Timeout:
+        raise
+    except Exception as e:  # noqa
+        return "err %d" % err_code(e)
+    finally:
+        sys.setrecursionlimit(old)
+
+
+def run_history(h, per_call_timeout=20):
+    """h = {"alphabet", "spelling", "sharing", "steps": [...]} -> [[reply per call] per step]"""
+    import signal
+    from gen import rx
+    alphabet, spelling, sharing = h.get("alphabet", "letters"), h.get("spelling", "list"), h.get("sharing", "none")
+    sym = rx.sym_of(alphabet)
+    cache = {} if sharing == "history" else None
+    E = None
+    out = []
+    try:
+        signal.signal(signal.SIGALRM, _alarm)
+        armed = True
+    except ValueError:   # not in the main thread
+        armed = False
+    for step in h["steps"]:
+        r = _tup(step["ast"])
+        try:
+            T = rx.build_expr(r, alphabet, spelling, cache if sharing == "history" else ({} if sharing == "pattern" else None))
+        except Exception as e:  # noqa  (constructing the operators failed)
+            out.append(["err %d" % err_code(e)] * len(step["calls"]))
+            continue
+        how = step.get("how", "new")
+        if how == "new" or E is None:
+            E = T
+        else:
+            edit_in_place(E, T, how)
+        rs = []
+        for (op, w) in step["calls"]:
+            seq = [sym(k) for k in w]
+            if armed:
+                signal.alarm(per_call_timeout)
+            try:
+                rs.append(call_engine(op, E, seq, alphabet))
+            except _Timeout:
+                rs.append("err %d" % E_TIMEOUT)
+            finally:
+                if armed:
+                    signal.alarm(0)
+        out.append(rs)
+    return out
+
+
+def _tup(a):
+    return tuple(_tup(x) if isinstance(x, (list, tuple)) else x for x in a)
+
+
+def _work_h(chunk):
+    return [run_history(h) for h in chunk]
+
+
+def run_histories(hs, workers=16):
+    """every history in a process of its own pool worker (histories never share objects with each other)"""
+    from concurrent.futures import ProcessPoolExecutor
+    cost = sum(len(s["calls"]) for h in hs for s in h["steps"])
+    if cost < 4000 or len(hs) < 4:
+        return _work_h(hs)
+    k = max(1, (len(hs) + workers * 4 - 1) // (workers * 4))
+    chunks = [hs[i:i + k] for i in range(0, len(hs), k)]
+    with ProcessPoolExecutor(max_workers=workers) as ex:
+        outs = list(ex.map(_work_h, chunks))
+    return [x for o in outs for x in o]
